@@ -364,6 +364,12 @@ func (b *BlockWise[C]) Handle(w *responsewriter.ResponseWriter[C], r *pool.Messa
 	tokenStr := token.Hash()
 
 	sendingMessageCode, sendingMessageExist := b.getSendingMessageCode(tokenStr)
+	if !sendingMessageExist && r.Code() == codes.Continue {
+		// 2.31 Continue only ever asks for the next block of a body that is being sent. Without
+		// such a body (the transfer is over, or was abandoned) it is a late or duplicated
+		// message and must not reach the caller as if it were the final response.
+		return
+	}
 	if !sendingMessageExist || wantsToBeReceived(r) {
 		err := b.handleReceivedMessage(w, r, maxSZX, maxMessageSize, next)
 		if err != nil {
@@ -401,6 +407,14 @@ func (b *BlockWise[C]) handleReceivedMessage(w *responsewriter.ResponseWriter[C]
 			startSendingMessageBlock = block
 		}
 	case codes.POST, codes.PUT:
+		if block, errB := r.GetOptionUint32(message.Block2); errB == nil && !r.HasOption(message.Block1) {
+			if _, num, _, errD := DecodeBlockOption(block); errD == nil && num > 0 {
+				// a request for a later block of a response that is not (or no longer) held, e.g. a
+				// duplicate that arrives after the transfer completed: it carries no body and must
+				// not be executed as a new request
+				return fmt.Errorf("response block(%v) requested but no response is held", num)
+			}
+		}
 		maxSZX = fitSZX(r, message.Block1, maxSZX)
 		errP := b.processReceivedMessage(w, r, maxSZX, next, message.Block1, message.Size1)
 		if errP != nil {
@@ -787,8 +801,19 @@ func (b *BlockWise[C]) processReceivedMessage(w *responsewriter.ResponseWriter[C
 		szx = getSzx(szx, maxSzx)
 		// if there is no more then just forward req to next handler
 		if !more {
+			if num > 0 {
+				// the final block of a body whose earlier blocks are not (or no longer) held,
+				// e.g. a late duplicate of the last block: on its own it is not the body
+				return fmt.Errorf("final block(%v) received without the preceding blocks", num)
+			}
 			next(w, r)
 			return nil
+		}
+		if num > 0 && (blockType == message.Block1 || sentRequest == nil || !sentRequest.HasOption(message.Block2)) {
+			// a later block of a body that is not being reassembled (its transfer is over or was
+			// never started here), e.g. a duplicate: starting a new reassembly from it would ask
+			// the peer for block 0 again, which for POST/PUT re-sends the request without its body
+			return fmt.Errorf("block(%v) received without the preceding blocks", num)
 		}
 	}
 	cachedReceivedMessage, closeCachedReceivedMessage, err := b.getCachedReceivedMessage(cachedReceivedMessageGuard, r, tokenStr, validUntil)
